@@ -5,5 +5,5 @@ patch=$(readlink -f "$1")
 d=$(mktemp -d /tmp/hidimut.XXXXXX)
 rsync -a --exclude .git /repo/ $d/
 if ! (cd $d && patch -p1 -s --no-backup-if-mismatch < "$patch"); then echo "PATCH FAILED"; rm -rf $d; exit 3; fi
-/verif/bin/hidicheck -repo $d -verif /verif -property all 2>&1 | grep -E "VIOLATED|UNDECIDED|VIOLATION|CHECKER" | cut -c1-400
+${HIDICHECK:-/verif/bin/hidicheck} -repo $d -verif /verif -property all 2>&1 | grep -E "VIOLATED|UNDECIDED|VIOLATION|CHECKER" | cut -c1-400
 rm -rf $d
